@@ -5,13 +5,16 @@ A state is represented by a shortest history (tuple of (op, key index)) and rebu
 on a fresh TypeContext, so a probe never perturbs the explored state. State identity = (keys stored by the
 user, canonical dict contents incl. memoised alias keys); the memo is explored, never observed.
 
+Base types (letters in the unit descriptors): p = plain top-level class, n = class nested in another class
+(key Outer1.B1, named by ForwardRef('Outer1.B1', module)), g = bare user-defined typing.Generic subclass.
+
 Units
-  ("closure", 2)        complete reachable state space (fixpoint, histories of ANY length), 2 bases x 6 forms
-  ("order", 1)          fixpoint, 1 base x (6 forms + forward references naming the NewType / the aliases): the
-                        only keys for which "unwrapped form before forward reference naming it" is observable
-  ("dictlike", 1)       fixpoint, 1 base; in every state a key whose hash raises must behave as on a plain dict
-  ("depth", 3, "root")  3 bases: the empty state
-  ("depth", 3, i)       3 bases: BFS from [insert key i] to the tier's depth (all histories up to that length)
+  ("closure", "pn"), ("closure", "pg")   complete reachable state space (fixpoint, histories of ANY length), 2 bases x 6 forms
+  ("order", "p"|"n"|"g")   fixpoint, 1 base x (6 forms + forward references naming the NewType / the aliases): the
+                           only keys for which "unwrapped form before forward reference naming it" is observable
+  ("dictlike", "p")        fixpoint, 1 base; in every state a key whose hash raises must behave as on a plain dict
+  ("depth", "png", "root") 3 bases: the empty state
+  ("depth", "png", i)      3 bases: BFS from [insert key i] to the tier's depth (all histories up to that length)
 """
 from __future__ import annotations
 
@@ -51,42 +54,66 @@ DEFAULT_OUT = ("default",)
 
 
 # ----------------------------------------------------------------------------------------------- key family
+KINDS = {"p": "plain", "n": "nested", "g": "generic"}
+
+
+def _base_src(kind, i):
+    """-> (source lines defining base i, expression denoting it, the text a forward reference naming it must carry)."""
+    if kind == "plain":
+        return [f"class B{i}: pass"], f"B{i}", f"B{i}"
+    if kind == "nested":
+        return [f"class Outer{i}:", f"    class B{i}: pass"], f"Outer{i}.B{i}", f"Outer{i}.B{i}"
+    if kind == "generic":
+        return [f'T{i} = typing.TypeVar("T{i}")', f"class B{i}(typing.Generic[T{i}]): pass"], f"B{i}", f"B{i}"
+    raise ValueError(kind)
+
+
 class Family:
-    def __init__(self, nb: int, extended: bool = False):
-        self.nb = nb
-        self.tag = f"b{nb}" + ("x" if extended else "")
+    def __init__(self, kinds: str, extended: bool = False):
+        self.kinds = kinds
+        self.kind_of = [KINDS[c] for c in kinds]
+        self.nb = nb = len(kinds)
+        self.extended = extended
+        self.tag = "b" + kinds + ("x" if extended else "")
         self.modname = "tlg_c16_" + self.tag
         self.forms = FORMS + (EXTRA if extended else ())
-        src = ["import typing"]
-        for i in range(nb):
-            src += [
-                f"class B{i}: pass",
-                f'NB{i} = typing.NewType("NB{i}", B{i})',
-                f'AB{i} = typing.TypeAliasType("AB{i}", B{i})',
-                f'SB{i} = typing.TypeAliasType("SB{i}", "B{i}")',
-                f"FB{i} = typing.Final[B{i}]",
+        src, exprs, names = ["import typing"], [], []
+        for i, kind in enumerate(self.kind_of):
+            lines, expr, name = _base_src(kind, i)
+            exprs.append(expr)
+            names.append(name)
+            src += lines + [
+                f'NB{i} = typing.NewType("NB{i}", {expr})',
+                f'AB{i} = typing.TypeAliasType("AB{i}", {expr})',
+                f'SB{i} = typing.TypeAliasType("SB{i}", "{name}")',
+                f"FB{i} = typing.Final[{expr}]",
             ]
         self.src = "\n".join(src) + "\n"
         self.mod = m = mkmod(self.modname, self.src)
         self.keys, self.labels, self.form_of, self.base_of = [], [], [], []
         for i in range(nb):
+            base = eval(exprs[i], m.__dict__)  # noqa: S307 - our own synthesised source
+            assert isinstance(base, type) and base.__qualname__ == names[i] and base.__module__ == self.modname
             per = {
-                "base": getattr(m, f"B{i}"),
+                "base": base,
                 "newtype": getattr(m, f"NB{i}"),
                 "alias": getattr(m, f"AB{i}"),
                 "stralias": getattr(m, f"SB{i}"),
                 "final": getattr(m, f"FB{i}"),
                 # created the way the library creates them; never evaluated (checked by fresh_refs_ok)
-                "fwdref": refs.forwardref(f"B{i}", module=self.modname),
+                "fwdref": refs.forwardref(names[i], module=self.modname),
                 "fwdref_newtype": refs.forwardref(f"NB{i}", module=self.modname),
                 "fwdref_alias": refs.forwardref(f"AB{i}", module=self.modname),
                 "fwdref_stralias": refs.forwardref(f"SB{i}", module=self.modname),
             }
+            # the family's "ForwardRef to it" is the reference whose text evaluates to the base in its module
+            assert per["fwdref"].__forward_arg__ == names[i] and eval(per["fwdref"].__forward_arg__, m.__dict__) is base  # noqa: S307
             for f in self.forms:
                 self.keys.append(per[f])
                 self.labels.append(f"{f}{i}")
                 self.form_of.append(f)
                 self.base_of.append(i)
+        self.nf = len(self.forms)
         self.nk = len(self.keys)
         self.label2ki = {lb: i for i, lb in enumerate(self.labels)}
         self.keylabel = {k: lb for k, lb in zip(self.keys, self.labels)}
@@ -111,10 +138,10 @@ class Family:
 _FAMILIES: dict[tuple, Family] = {}
 
 
-def family(nb, extended=False) -> Family:
-    key = (nb, extended)
+def family(kinds, extended=False) -> Family:
+    key = (kinds, extended)
     if key not in _FAMILIES:
-        _FAMILIES[key] = Family(nb, extended)
+        _FAMILIES[key] = Family(kinds, extended)
     return _FAMILIES[key]
 
 
@@ -330,6 +357,18 @@ def _parse_probe(fam, p):
     return (p[0], fam.label2ki[p[1]])
 
 
+def _kind_tag(fam, hmin, probe, mode, base):
+    """'@nested' / '@generic' when the fault is specific to that kind of base: the same witness on a family of the same
+    shape whose bases are all plain classes does not fail in the same mode. Faults that do not depend on the kind of
+    base therefore land in the same cell whatever base exhibited them."""
+    if base is None or fam.kind_of[base] == "plain":
+        return ""
+    ref = family("p" * fam.nb, fam.extended)  # same labels / indices
+    if run_probe(ref, hmin, probe)[0] == mode:
+        return ""
+    return "@" + fam.kind_of[base]
+
+
 def report(fam, hist, probe, mode, res, X):
     """Minimise, build the signature from the minimal witness, record."""
     X["viol"] = X.get("viol", 0) + 1
@@ -348,6 +387,7 @@ def report(fam, hist, probe, mode, res, X):
         op, form, base = "later-lookup-after-" + probe[1], fam.form_of[probe[2]], fam.base_of[probe[2]]
     else:
         op, form, base = probe[0], fam.form_of[probe[1]], fam.base_of[probe[1]]
+    form += _kind_tag(fam, hmin, probe, mode, base)
     st = stored_of(hmin)
     own = sorted({fam.form_of[j] for j in st if fam.base_of[j] == base})
     other = sorted({fam.form_of[j] for j in st if fam.base_of[j] != base})
@@ -359,8 +399,9 @@ def report(fam, hist, probe, mode, res, X):
         feat += "+after-lookup={" + ",".join(looked) + "}"
     sig = f"C16/{op}/{form}/{mode}/{feat}"
     hj = [[o, fam.labels[j]] for o, j in hmin]
-    what = f"{fam.nb} base(s), history {hj or '[] (empty context)'}, then {_fmt_probe(fam, probe)}: {mode}; {detail}"
-    res.violation(sig, what, {"nb": fam.nb, "extended": fam.tag.endswith("x"), "history": hj, "probe": _fmt_probe(fam, probe)})
+    bases = ", ".join(f"{i}={k}" for i, k in enumerate(fam.kind_of))
+    what = f"bases {bases}; history {hj or '[] (empty context)'}, then {_fmt_probe(fam, probe)}: {mode}; {detail}"
+    res.violation(sig, what, {"kinds": fam.kinds, "extended": fam.extended, "history": hj, "probe": _fmt_probe(fam, probe)})
 
 
 # ---------------------------------------------------------------------------------------------- exploration
@@ -585,7 +626,10 @@ def _hostile_state(fam, hist, res, X):
 # ------------------------------------------------------------------------------------------- check contract
 def units(tier):
     nk3 = 3 * len(FORMS)
-    return [("dictlike", 1), ("order", 1), ("closure", 2), ("depth", 3, "root")] + [("depth", 3, i) for i in range(nk3)]
+    return (
+        [("dictlike", "p"), ("order", "p"), ("order", "n"), ("order", "g"), ("closure", "pn"), ("closure", "pg"), ("depth", "png", "root")]
+        + [("depth", "png", i) for i in range(nk3)]
+    )
 
 
 def meta(tier):
@@ -598,10 +642,11 @@ def meta(tier):
         "abstract (operation, key form, model path, forms stored for the same base, key memoised?) cells, non-trivial = "
         "answered through a fallback",
         "bounds": {
-            "closure": "2 bases x 6 forms: fixpoint (all histories of any length)",
-            "order": "1 base x 9 forms (6 + forward references naming the NewType/alias/string alias): fixpoint",
-            "dictlike": "1 base x 6 forms: fixpoint; key with raising hash probed in every state",
-            "depth": f"3 bases x 6 forms: every history up to length {DEPTH3[tier]} (last operation probed, not expanded)",
+            "bases": "p = plain top-level class, n = class nested in a class (qualname 'Outer1.B1'), g = bare typing.Generic subclass",
+            "closure": "2 bases x 6 forms, pairings (p,n) and (p,g): fixpoint each (all histories of any length)",
+            "order": "1 base x 9 forms (6 + forward references naming the NewType/alias/string alias), for each of p, n, g: fixpoint",
+            "dictlike": "1 base (p) x 6 forms: fixpoint; key with raising hash probed in every state",
+            "depth": f"3 bases (p,n,g) x 6 forms: every history up to length {DEPTH3[tier]} (last operation probed, not expanded)",
         },
         "assumptions": [
             "behaviour of a TypeContext is a function of its dict contents and the (pure) library memo caches; caches are cleared "
@@ -619,28 +664,25 @@ def meta(tier):
 
 
 def run_unit(unit, tier, res):
-    kind, nb = unit[0], unit[1]
+    kind, kinds = unit[0], unit[1]
     X = {"cov": {}, "outs": set()}
+    tagu = kind + ":" + kinds
     if kind == "closure":
-        fam = family(nb)
+        fam = family(kinds)
         fix, depth, n = explore(fam, [()], None, res, X, cap=CLOSURE_CAP)
-        tagu = f"closure{nb}"
     elif kind == "order":
-        fam = family(nb, extended=True)
+        fam = family(kinds, extended=True)
         fix, depth, n = explore(fam, [()], None, res, X, cap=CLOSURE_CAP)
-        tagu = f"order{nb}"
     elif kind == "dictlike":
-        fam = family(nb)
+        fam = family(kinds)
         fix, depth, n = explore(fam, [()], None, res, X, cap=CLOSURE_CAP, per_state=_hostile_state)
-        tagu = f"dictlike{nb}"
     elif kind == "depth":
-        fam = family(nb)
+        fam = family(kinds)
         first = unit[2]
         if first == "root":
             fix, depth, n = explore(fam, [()], DEPTH3[tier], res, X, skip_root_inserts=True)
         else:
             fix, depth, n = explore(fam, [(("ins", first),)], DEPTH3[tier], res, X)
-        tagu = f"depth{nb}"
     else:
         raise ValueError(unit)
     for k, v in X["cov"].items():
@@ -660,7 +702,7 @@ def run_unit(unit, tier, res):
 
 
 def replay(case, tier, res):
-    fam = family(case["nb"], bool(case.get("extended")))
+    fam = family(case["kinds"], bool(case.get("extended")))
     hist = tuple((o, fam.label2ki[lb]) for o, lb in case["history"])
     probe = _parse_probe(fam, case["probe"])
     res.evals += 1
